@@ -22,7 +22,7 @@ def bounds(tier):
 def cases(tier):
     cs = []
     for a in C11.WEIGHTED:
-        for m in ((1, 2, 3) if tier == "thorough" else (1, 2)):
+        for m in ((1, 2, 3) if (tier == "thorough" or a in ("imtlg", "mean", "sum", "constant", "random", "pcgrad", "mgda")) else (1, 2)):
             if a == "krum" and m < 3 or (a in ("cagrad", "alignedmtl") and m == 3):
                 continue
             cs.append(dict(name=f"gram_only_{a}_m{m}", fn="gram_only", args=dict(agg=a, m=m), weight=m * m * (4 if a in C11.SPECTRAL else 1)))
